@@ -262,8 +262,9 @@ theorem relOuts_of_outputs {ws : Bytes} {ns : List Node}
 
 /-! ## the graph stage as a whole -/
 
-theorem buildGraph_none_iff {ns : List Node} (hnd : NoDuplicate ns) (hrel : RelOuts ns) :
-    buildGraph Cfg.current ns = none ↔ DepsDefined ns ∧ NoCycle ns ∧ ¬ Conflict ns := by
+theorem buildGraph_none_iff {ws : Bytes} (hws : isAbs ws = true) {ns : List Node} (hnd : NoDuplicate ns)
+    (hrel : RelOuts ns) :
+    buildGraph Cfg.current ws ns = none ↔ DepsDefined ns ∧ NoCycle ns ∧ ¬ Conflict ws ns := by
   unfold buildGraph
   have hfc := findCycle_spec ns
   constructor
@@ -279,7 +280,7 @@ theorem buildGraph_none_iff {ns : List Node} (hnd : NoDuplicate ns) (hrel : RelO
       · intro hnc h
         refine ⟨hdef, hnc, ?_⟩
         intro hc
-        rw [← hasConflict_iff hnd hdef hrel, ← hasConflictC_eq hnd hdef] at hc
+        rw [← hasConflict_iff hws hnd hdef hrel, ← hasConflictC_eq hnd hdef] at hc
         simp [hc] at h
       · intro hf; exact hf.elim
   · rintro ⟨hdef, hnc, hcf⟩
@@ -292,11 +293,11 @@ theorem buildGraph_none_iff {ns : List Node} (hnd : NoDuplicate ns) (hrel : RelO
     cases findCycle ns <;> simp only
     · intro h; exact absurd hnc h
     · intro _
-      have : hasConflictC Cfg.current ns = false := by
+      have : hasConflictC Cfg.current ws ns = false := by
         rw [hasConflictC_eq hnd hdef]
-        cases hh : hasConflict Cfg.current ns
+        cases hh : hasConflict Cfg.current ws ns
         · rfl
-        · exact absurd ((hasConflict_iff hnd hdef hrel).mp hh) hcf
+        · exact absurd ((hasConflict_iff hws hnd hdef hrel).mp hh) hcf
       simp [this]
     · intro hf; exact hf.elim
 
